@@ -29,7 +29,9 @@ Binding
 import collections
 import json
 import os
+import queue
 import random
+import threading
 
 import common
 import runner
@@ -148,7 +150,17 @@ def is_substring(r, s):
 
 
 def judge(s, e, got, units):
-    """None if the implementation's answer `got` is acceptable for expectation e, else (kind, text)."""
+    """None if the implementation's answer `got` is acceptable for expectation e, else (kind, text).
+    Direct find / replace answers carry the free function's result as well ("raw"): judged the same way."""
+    bad = judge1(s, e, got, units)
+    if bad is None and isinstance(got, dict) and "raw" in got:
+        bad = judge1(s, e, got["raw"], collections.Counter())
+        if bad:
+            bad = (bad[0], "builtins::%s: %s" % (e["op"], bad[1]))
+    return bad
+
+
+def judge1(s, e, got, units):
     op = e["op"]
     if got is None:
         return ("missing", "no result")
@@ -215,6 +227,92 @@ def scriptable(s):
     return not any(c in (10, 13, 34, 92, 123, 125) for c in s)
 
 
+def run_pool(reqs, timeout, max_bad=6, nworkers=16):
+    """runner.run_requests with an emergency brake: a hang costs a whole timeout and a defect that hangs one case
+    usually hangs hundreds, so once `max_bad` workers hung or died no further request is started.
+    Returns ({id: {mode: response}}, aborted)."""
+    q = queue.Queue()
+    for r in reqs:
+        q.put(r)
+    results, lock, state = {}, threading.Lock(), {"bad": 0}
+
+    def work():
+        w = runner.Worker([runner.VH, "strs"])
+        while state["bad"] < max_bad:
+            try:
+                req = q.get_nowait()
+            except queue.Empty:
+                break
+            modes, out = list(req["modes"]), {}
+            while modes and state["bad"] < max_bad:
+                r2 = dict(req, modes=modes)
+                if not w.send(r2):
+                    w.kill()
+                    w.start()
+                    w.send(r2)
+                pending, current = list(modes), None
+                while pending:
+                    ans = w.readline(timeout)
+                    if isinstance(ans, tuple):
+                        kind, info = ans
+                        blame = current if current is not None else pending[0]
+                        if kind == "HANG":
+                            w.kill()
+                            out[blame] = {"st": "HANG"}
+                        else:
+                            out[blame] = {"st": "CRASH", "crash": runner.crash_summary(info)}
+                        with lock:
+                            state["bad"] += 1
+                        w.start()
+                        pending.remove(blame)
+                        modes = pending
+                        break
+                    if "begin" in ans:
+                        current = ans["mode"]
+                        continue
+                    out[ans["mode"]] = ans
+                    pending.remove(ans["mode"])
+                    current = None
+                else:
+                    modes = []
+            with lock:
+                results[req["id"]] = out
+        w.close()
+    threads = [threading.Thread(target=work, daemon=True) for _ in range(max(1, min(nworkers, len(reqs))))]
+    for t in threads:
+        t.start()
+    for t in threads:
+        t.join()
+    return results, state["bad"] >= max_bad
+
+
+def why_of(resp):
+    return resp.get("panic") or (resp.get("crash") or {}).get("msg") or resp.get("diag") or resp.get("st")
+
+
+def diagnose(s, calls, mode):
+    """A whole request failed (hang, crash, panic inside a script): which call is it?  Per operation first, then the
+    first calls of the failing operation one by one.  Returns (index of a failing call or None, operation or None, response)."""
+    ops = []
+    for c in calls:
+        if c[0] not in ops:
+            ops.append(c[0])
+    by_op = {op: [j for j, c in enumerate(calls) if c[0] == op] for op in ops}
+    out = runner.run_requests([{"id": op, "modes": [mode], "s": s, "calls": [calls[j] for j in js]} for op, js in by_op.items()], mode="strs", timeout=5.0)
+    for op in ops:
+        resp = out.get(op, {}).get(mode, {"st": "CRASH"})
+        if resp.get("st") == "done" and len(resp.get("r", [])) == len(by_op[op]):
+            continue
+        js = by_op[op][:64]
+        one = runner.run_requests([{"id": j, "modes": [mode], "s": s, "calls": [calls[j]]} for j in js], mode="strs", timeout=3.0)
+        for j in js:
+            r1 = one.get(j, {}).get(mode, {"st": "CRASH"})
+            if r1.get("st") != "done" or len(r1.get("r", [])) != 1:
+                return j, op, r1
+        return None, op, resp
+    return None, None, {"st": "not reproducible in isolation"}
+
+
 def replay_phase(v, cov, tier):
     quick = tier == "quick"
     env = ({"MAXH": 5, "MAXN": 3, "REPH": 4, "REPO": 2, "REPW": 2, "SPLH": 4, "SPLP": 2, "SLIH": 3, "WSH": 3, "CASEH": 3} if quick else
@@ -238,33 +336,46 @@ def replay_phase(v, cov, tier):
         modes = ["direct", "script"] if scriptable(rec["s"]) else ["direct"]
         reqs.append({"id": i, "modes": modes, "s": rec["s"], "calls": calls})
         meta[i] = (rec, calls, exp)
-    res = runner.run_requests(reqs, mode="strs", timeout=120.0)
+    res, aborted = run_pool(reqs, timeout=10.0)
     counts = collections.Counter()
+    diagnosed = 0
+    if aborted:
+        cov["replay_aborted"] = "stopped after %d of %d subjects: workers hung or died repeatedly" % (len(res), len(reqs))
     nontrivial = set()
     units = {"direct": collections.Counter(), "script": collections.Counter()}
     samples = {}
     for i, (rec, calls, exp) in meta.items():
         s = rec["s"]
+        if i not in res:
+            continue                                  # not issued (aborted early)
         for mode in reqs[i]["modes"]:
             resp = res.get(i, {}).get(mode)
             if resp is None:
+                if aborted:
+                    continue
                 raise common.ToolError("no answer for subject %r in mode %s" % (text(s), mode))
             st = resp.get("st")
             got = resp.get("r", [])
             if st != "done" or len(got) != len(calls):
-                # the whole script (or worker) failed: blame the first call without a result
-                j = min(len(got), len(calls) - 1)
-                e = exp[j]
-                why = resp.get("panic") or (resp.get("crash") or {}).get("msg") or resp.get("diag") or st
-                kind = "panic" if st in ("PANIC", "CRASH", "HANG") else "error"
-                v.finding("%s:%s:%s" % (e["op"], kind, e.get("cls", "")),
-                          "%s route: %s on %r ends with %s: %s" % (mode, calls[j], text(s), st, why),
-                          {"route": mode, "s": s, "text": text(s), "call": calls[j], "st": st, "detail": why, "src": resp.get("src", "")[-400:]})
                 counts["failed-runs"] += 1
+                kind = "hang" if st == "HANG" else "panic" if st in ("PANIC", "CRASH") else "error"
+                if st not in ("PANIC", "CRASH", "HANG") and len(got) < len(calls):
+                    j, op, r1 = len(got), calls[len(got)][0], resp          # a runtime error: the first call without a result
+                elif diagnosed < 3:
+                    diagnosed += 1
+                    j, op, r1 = diagnose(s, calls, mode)
+                else:
+                    j, op, r1 = None, None, resp
+                if j is not None:
+                    v.finding("%s:%s:%s" % (op, kind, exp[j].get("cls", "")), "%s route: %r.%s ends with %s: %s" % (mode, text(s), calls[j], st, why_of(r1)),
+                              {"route": mode, "s": s, "text": text(s), "call": calls[j], "st": st, "detail": why_of(r1), "src": r1.get("src", "")[-400:]})
+                else:
+                    v.finding("%s:%s:" % (op or "subject-" + rec["kind"], kind), "%s route: the calls on %r end with %s: %s" % (mode, text(s), st, why_of(resp)),
+                              {"route": mode, "s": s, "text": text(s), "calls": len(calls), "st": st, "detail": why_of(resp)})
                 continue
             for j, e in enumerate(exp):
                 counts[mode + ":" + e["op"]] += 1
-                if not e.get("m", True) or (e["op"] == "num" and not e["num"]["ok"] and not e["nan"]):
+                if mode == "direct" and (not e.get("m", True) or (e["op"] == "num" and not e["num"]["ok"] and not e["nan"])):
                     counts["unmodelled:" + e["op"]] += 1
                 if e["nontrivial"]:
                     nontrivial.add((i, j))
@@ -272,7 +383,7 @@ def replay_phase(v, cov, tier):
                 if bad:
                     v.finding("%s:%s:%s" % (e["op"], bad[0], e.get("cls", "")), "%s route: %r.%s -> %s" % (mode, text(s), calls[j], bad[1]),
                               {"route": mode, "s": s, "text": text(s), "call": calls[j], "expected": {k: x for k, x in e.items() if k not in ("nontrivial",)}, "got": got[j]})
-                elif e["op"] not in samples and e["nontrivial"] and mode == "script":
+                elif e["op"] not in samples and e["nontrivial"] and mode == "script" and (len(s) >= 3 or rec["kind"] == "num") and (rec["kind"] != "abe" or 233 in s):
                     samples[e["op"]] = {"route": mode, "s": text(s), "call": calls[j], "spec": {k: x for k, x in e.items() if k in ("b", "c", "r", "num")}, "impl": got[j]}
     for mode, u in units.items():
         if u["only_byte"] and u["only_cp"]:
@@ -355,15 +466,19 @@ def trace_phase(v, cov, tier):
         h, n, new = [ord(x) for x in c["h"]], [ord(x) for x in c["n"]], [ord(x) for x in c["new"]]
         reqs.append({"id": i, "modes": ["trace", "direct", "script"], "h": h, "n": n, "new": new, "s": h,
                      "calls": [["find", n], ["replace", n, new], ["split", n]]})
-    res = runner.run_requests(reqs, mode="strs", timeout=60.0)
+    res, aborted = run_pool(reqs, timeout=10.0)
+    if aborted:
+        cov["long_needles_aborted"] = "stopped after %d of %d cases: workers hung or died repeatedly" % (len(res), len(reqs))
     rows, index = [], []
     fam = collections.Counter()
     for i, c in enumerate(cases):
-        t = res.get(i, {}).get("trace", {"st": "CRASH"})
+        if i not in res or "trace" not in res[i]:
+            continue
+        t = res[i]["trace"]
         label = "%s/%s |n|=%d |h|=%d" % (c["family"], c["shape"], len(c["n"].encode()), len(c["h"].encode()))
         if t.get("st") != "done":
-            why = t.get("panic") or (t.get("crash") or {}).get("msg") or t.get("st")
-            v.finding("find:panic:n17+", "find/replace with a needle of more than 16 bytes fails: %s (%s)" % (why, label),
+            why = why_of(t)
+            v.finding("find:%s:n17+" % ("hang" if t.get("st") == "HANG" else "panic"), "find/replace with a needle of more than 16 bytes fails: %s (%s)" % (why, label),
                       {"h": c["h"], "n": c["n"], "new": c["new"], "st": t.get("st"), "detail": why})
             continue
         if not t.get("rep_utf8", False):
@@ -403,7 +518,7 @@ def trace_phase(v, cov, tier):
         if len(row["n"]) > 16 and len(row["n"]) <= len(row["h"]) and nit == 0:
             v.finding("trace:shape", "a call with a needle of %d bytes recorded no iteration of the long tier (%s)" % (len(row["n"]), label), {"h": c["h"], "n": c["n"]})
         if vd["abs"]:
-            cond = sorted(vd["abs"])[0]
+            cond = sorted(vd["abs"], key=lambda x: (x[1] == 0, x[1], x[0]))[0]        # the earliest iteration-level condition first
             v.finding("trace:%s" % cond[0], "recorded iterations of find violate `%s` at event %d (%s); result %d, first occurrence %d; events %s" % (
                 cond[0], cond[1], label, row["res"], vd["spec"], json.dumps(row["events"][max(0, cond[1] - 2):cond[1] + 1])),
                 {"h": c["h"], "n": c["n"], "new": c["new"], "res": row["res"], "spec_find": vd["spec"], "violated": vd["abs"], "events": row["events"]})
@@ -415,7 +530,9 @@ def trace_phase(v, cov, tier):
         # the same call through the public functions and a script
         cp = len(bytes(row["h"][:vd["spec"]]).decode()) if vd["spec"] >= 0 else -1
         for mode in ("direct", "script"):
-            resp = res.get(i, {}).get(mode, {"st": "CRASH"})
+            if mode not in res[i]:
+                continue                              # not run: the pool stopped early
+            resp = res[i][mode]
             got = resp.get("r", [])
             if resp.get("st") != "done" or len(got) != 3:
                 why = resp.get("panic") or (resp.get("crash") or {}).get("msg") or resp.get("st")
@@ -481,3 +598,32 @@ def run(tier):
         "needles longer than 16 bytes are sampled (seeded generator), not enumerated; the exhaustive claim is for the small domain and for the model with threshold 2",
     ]
     return v.finish()
+
+
+def replay(path):
+    """bin/check C13 quick --replay FILE: runs the recorded case again on the current tree and prints what the
+    implementation answers now (exit 1 if it still fails the recorded expectation, 0 otherwise)."""
+    common.build_harness()
+    rp = json.load(open(path))["replay"]
+    if "call" in rp:
+        modes = [rp.get("route", "direct")]
+        out = runner.run_requests([{"id": 0, "modes": modes, "s": rp["s"], "calls": [rp["call"]]}], mode="strs", timeout=10.0)
+        resp = out.get(0, {}).get(modes[0], {"st": "CRASH"})
+        print("subject %r call %s route %s -> %s" % (rp.get("text"), rp["call"], modes[0], json.dumps(resp, ensure_ascii=False)[:600]))
+        if resp.get("st") != "done" or len(resp.get("r", [])) != 1:
+            return 1
+        if "expected" in rp:
+            e = dict(rp["expected"], nontrivial=True)
+            bad = judge(rp["s"], e, resp["r"][0], collections.Counter())
+            print("expected %s: %s" % (rp["expected"], "still fails: " + bad[1] if bad else "ok now"))
+            return 1 if bad else 0
+        return 0
+    if "h" in rp and "n" in rp:
+        h, n = [ord(x) for x in rp["h"]], [ord(x) for x in rp["n"]]
+        out = runner.run_requests([{"id": 0, "modes": ["trace"], "h": h, "n": n, "new": [ord(x) for x in rp.get("new", "")]}], mode="strs", timeout=10.0)
+        t = out.get(0, {}).get("trace", {"st": "CRASH"})
+        first = rp["h"].encode().find(rp["n"].encode())
+        print("find -> %s (st %s, %d events); first occurrence at byte %d" % (t.get("res"), t.get("st"), len(t.get("events", [])), first))
+        return 0 if t.get("st") == "done" and t.get("res") == first else 1
+    print("nothing to replay in %s" % path)
+    return 2
